@@ -99,6 +99,37 @@ int main(int argc, char** argv) {
       std::string v;
       for (auto& p : sol) { v += "/"; for (auto& q : p) v += hexd(q.x) + hexd(q.y); }
       emitX("boolD:" + key + ":" + std::to_string(prec), v);
+#ifdef USINGZ
+      // Z accounting through ClipperD (precision 0: scale 2, so solutions are multiples of 1/2; ZCHECK sees everything doubled), every
+      // Execute overload on a fresh object each: the callback must be bound whichever overload runs first
+      {
+        PathsD szd = sd, czd = cd;
+        Paths64 s64, c64;
+        for (size_t a = 0; a < szd.size(); ++a) { Path64 q; for (size_t b = 0; b < szd[a].size(); ++b) { szd[a][b].z = 3 * gz.range(1, 300); Point64 w(2 * (int64_t)szd[a][b].x, 2 * (int64_t)szd[a][b].y); w.z = szd[a][b].z; q.push_back(w); } s64.push_back(q); }
+        for (size_t a = 0; a < czd.size(); ++a) { Path64 q; for (size_t b = 0; b < czd[a].size(); ++b) { czd[a][b].z = 3 * gz.range(1, 300); Point64 w(2 * (int64_t)czd[a][b].x, 2 * (int64_t)czd[a][b].y); w.z = czd[a][b].z; q.push_back(w); } c64.push_back(q); }
+        int ov = (int)gz.range(0, 3);
+        bool usecb = gz.chance(80);
+        ClipperD cz(0); cz.AddSubject(szd); cz.AddClip(czd);
+        std::vector<int64_t> zlog; g_log = &zlog; g_next = 0;
+        if (usecb) cz.SetZCallback(cbD);
+        PathsD rs, ro; PolyTreeD rt;
+        if (ov == 0) cz.Execute(ct, fr, rs);
+        else if (ov == 1) cz.Execute(ct, fr, rs, ro);
+        else if (ov == 2) { cz.Execute(ct, fr, rt); rs = PolyTreeToPathsD(rt); }
+        else { cz.Execute(ct, fr, rt, ro); rs = PolyTreeToPathsD(rt); }
+        g_log = nullptr;
+        std::string ins; size_t nin = 0;
+        for (auto* ps : {&s64, &c64}) for (auto& p : *ps) for (auto& w : p) { ++nin; ins += " " + PZ(w); }
+        std::string sols; size_t nsol = 0; bool integral = true;
+        for (auto& p : rs) for (auto& q : p) { if (2 * q.x != std::floor(2 * q.x) || 2 * q.y != std::floor(2 * q.y)) integral = false; Point64 w((int64_t)(2 * q.x), (int64_t)(2 * q.y)); w.z = q.z; ++nsol; sols += " " + PZ(w); }
+        if (!integral) emitF("zcheckD.not_integral", "ClipperD(0) (scale 2) returned a coordinate that is not a multiple of 1/2");
+        std::string logs; for (auto z : zlog) logs += " " + S(z);
+        std::string req = "ZCHECK " + std::string(usecb ? "1 " : "0 ") + "0 " + std::to_string(nin) + ins + " " + std::to_string(nsol) + sols + " " + std::to_string(zlog.size()) + logs;
+        emitS("zcheckD.ifgp.overload" + std::to_string(ov), "IFGP " + S(in.subj) + " " + S(in.clip) + " 0 " + req);
+        stat("zD.overload" + std::to_string(ov));
+        stat("zD.callback_calls", (long long)zlog.size());
+      }
+#endif
     }
     if (i % 2 == 1 && in.R >= 400 && in.R <= ((int64_t)1 << 40)) {
       // offsetting and rectangle clipping of the subject paths
@@ -114,6 +145,32 @@ int main(int argc, char** argv) {
     }
   }
 #ifdef USINGZ
+  // dense small-coordinate section (USINGZ build only, no cross-build records): triangles and quadrilaterals with coordinates
+  // below 1000, callback always installed.  Rounded intersection points make output rings touch themselves here, so the
+  // clean-up code (CleanCollinear -> FixSelfIntersects -> DoSplitOp, which creates and copies vertices) runs far more often
+  // than in the generic stream.  Judged only when Lean confirms general position.
+  {
+    int M = thorough ? 40000 : 4000;
+    Rng gd(seed_from_args(argc, argv) * 104729 + 17);
+    for (int i = 0; i < M; ++i) {
+      auto poly = [&](int n) { Path64 p; for (int k = 0; k < n; ++k) { Point64 q(gd.range(0, 999), gd.range(0, 999)); q.z = 3 * gd.range(1, 300); p.push_back(q); } return p; };
+      Paths64 subj{poly((int)gd.range(3, 4))}, clip{poly((int)gd.range(3, 4))};
+      ClipType ct = CTS[gd.next() % 4]; FillRule fr = FRS[gd.next() % 4];
+      Clipper64 c; c.PreserveCollinear(gd.coin()); c.AddSubject(subj); c.AddClip(clip);
+      std::vector<int64_t> log; g_log = &log; g_next = 0;
+      c.SetZCallback(cb64);
+      Paths64 sol;
+      if (gd.coin()) c.Execute(ct, fr, sol); else { PolyTree64 t; c.Execute(ct, fr, t); sol = PolyTreeToPaths64(t); }
+      g_log = nullptr;
+      std::string ins; size_t nin = 0;
+      for (auto* ps : {&subj, &clip}) for (auto& p : *ps) for (auto& v : p) { ++nin; ins += " " + PZ(v); }
+      std::string sols; size_t nsol = 0;
+      for (auto& p : sol) for (auto& v : p) { ++nsol; sols += " " + PZ(v); }
+      std::string logs; for (auto z : log) logs += " " + S(z);
+      emitS("zcheck.dense.ifgp", "IFGP " + S(subj) + " " + S(clip) + " 0 ZCHECK 1 0 " + std::to_string(nin) + ins + " " + std::to_string(nsol) + sols + " " + std::to_string(log.size()) + logs);
+      stat("z.dense.inputs");
+    }
+  }
   // model-level tie of SetZ: call the real private member on constructed edges
   {
     Clipper64 c;
